@@ -2467,7 +2467,11 @@ int32 tls13WriteClientHello(ssl_t *ssl, sslBuf_t *out,
        for future HRR responses and TLS <1.3 renegotiations. */
     if (!ssl->tls13IncorrectDheKeyShare)
     {
-        psAddUserExtToSession(ssl, userExt);
+        if (psAddUserExtToSession(ssl, userExt) < 0)
+        {
+            psDynBufUninit(&chBuf);
+            return PS_MEM_FAIL;
+        }
     }
 
     /* ProtocolVersion legacy_version == 0x0303 */
